@@ -25,6 +25,8 @@ CONSTANTS MaxLen,        \* tokens per program
           Sizes,         \* initial sizes in units
           TopU           \* units in 2^32 bytes under the scale map
 
+CalleeKinds == {"local", "host", "reenter"}
+
 VARIABLES prog,          \* sequence of tokens
           open,          \* stack of open constructs: "if" | "else" | "loop"
           fin
@@ -98,6 +100,9 @@ MatchBack(p, i, depth) ==       \* index of the "loop" token matching the "endlo
   ELSE MatchBack(p, i - 1, IF t = "endloop" THEN depth + 1 ELSE IF t = "loop" THEN depth - 1 ELSE depth)
 
 (* The machine: [pc, pages, trap, accs, iters] ; vals = <<v0, v1>> address pairs; c = condition.
+   "call" / "callgrow" stand for every kind of callee - a function of the module, an imported host function (the growing
+   one uses the host memory API on the caller's memory), a host function that calls back into the guest: the
+   semantics is the same, the driver runs each program once per kind (CalleeKinds).
    "mix" swaps the roles of the two address values at run time (v0 := v1) so that a later access through
    the same LOCAL uses a different value than the one that was checked. *)
 RECURSIVE Run(_, _, _, _)
